@@ -225,6 +225,10 @@ struct Dumper {
         J.attribute("trait", (int)UE->getKind());
         if (UE->isArgumentType()) J.attribute("argtype", ty(UE->getArgumentType()));
       }
+      if (auto *TI = dyn_cast<CXXTypeidExpr>(S)) {
+        if (TI->isTypeOperand())
+          J.attribute("type_operand", cty(TI->getTypeOperand(Ctx)));
+      }
       if (auto *OC = dyn_cast<CXXOperatorCallExpr>(S)) {
         J.attribute("op", getOperatorSpelling(OC->getOperator()));
       }
